@@ -240,6 +240,173 @@ func c07Gen(r *vRand) c07Case {
 	return cs
 }
 
+// c07RecSizes: encoded size of every record of the batch (kmsg).
+func c07RecSizes(b c07Batch) []int {
+	out := make([]int, len(b.Recs))
+	for i, r := range b.Recs {
+		kr := kmsg.Record{Attributes: r.Attr, TimestampDelta64: r.TsDelta, OffsetDelta: r.OffDelta, Key: r.Key, Value: r.Val}
+		for _, h := range r.Hdrs {
+			kr.Headers = append(kr.Headers, kmsg.Header{Key: h.K, Value: h.V})
+		}
+		tmp := kr.AppendTo(nil)
+		kr.Length = int32(len(tmp) - 1)
+		out[i] = len(kr.AppendTo(nil))
+	}
+	return out
+}
+
+// c07GenBoundary: small batches whose timestamp ranges overlap and are NOT monotone across
+// batches (a later batch may lie entirely at or before an earlier batch's max timestamp);
+// record 0 has delta 0 and MaxTimestamp is the true maximum (consistent headers), so the
+// scanner contract below applies. Cut-offs are then placed on every boundary.
+func c07GenBoundary(r *vRand) c07Case {
+	cs := c07Case{Interval: []int32{1, 2, 100}[r.Intn(3)], Created: 1700000000000 + int64(r.Intn(1000))}
+	base := int64(r.Intn(1000))
+	t0 := int64(1700000000000) + int64(r.Intn(100000))
+	nb := r.Range(2, 4)
+	for b := 0; b < nb; b++ {
+		bt := c07Batch{Base: base, FirstTs: t0 + int64(r.Range(-300, 300))}
+		if r.Chance(30) && b > 0 {
+			prev := cs.Batches[b-1]
+			bt.FirstTs = prev.FirstTs - int64(r.Range(0, 50)) // at or before the previous batch
+		}
+		n := r.Range(1, 5)
+		for i := 0; i < n; i++ {
+			rec := c07Rec{OffDelta: int32(i), Key: r.Bytes(r.Range(0, 3)), Val: r.Bytes(r.Range(1, 6))}
+			if i > 0 {
+				switch r.Intn(4) {
+				case 0:
+					rec.TsDelta = 0
+				case 1:
+					rec.TsDelta = -int64(r.Range(1, 50))
+				default:
+					rec.TsDelta = int64(r.Range(1, 200))
+				}
+			}
+			bt.Recs = append(bt.Recs, rec)
+		}
+		cs.Batches = append(cs.Batches, bt)
+		base += int64(n)
+	}
+	return cs
+}
+
+func c07Consistent(cs c07Case) bool {
+	for _, b := range cs.Batches {
+		if b.Recs[0].TsDelta != 0 {
+			return false
+		}
+		for i, r := range b.Recs {
+			if int(r.OffDelta) != i {
+				return false
+			}
+		}
+	}
+	return true
+}
+
+// c07Cutoffs: every batch's first/max timestamp and every record's timestamp, each -1, 0, +1 ms
+// (batch boundaries first), deduplicated.
+func c07Cutoffs(cs c07Case) []int64 {
+	var out []int64
+	seen := map[int64]bool{}
+	add := func(t int64) {
+		for _, d := range []int64{0, -1, 1} {
+			if !seen[t+d] {
+				seen[t+d] = true
+				out = append(out, t+d)
+			}
+		}
+	}
+	for _, b := range cs.Batches {
+		mx := b.FirstTs
+		for _, r := range b.Recs {
+			if b.FirstTs+r.TsDelta > mx {
+				mx = b.FirstTs + r.TsDelta
+			}
+		}
+		add(mx)
+		add(b.FirstTs)
+	}
+	for _, b := range cs.Batches {
+		for _, r := range b.Recs {
+			add(b.FirstTs + r.TsDelta)
+		}
+	}
+	return out
+}
+
+// c07PitrContract: the contract of collectRecoverableBatches for batches with consistent
+// headers (record 0 at firstTimestamp, maxTimestamp = the true maximum): the recovered
+// records are exactly the records of the segment in scan order (batch order, record order)
+// up to, not including, the first record whose timestamp is > cutoff. A batch kept whole is
+// returned byte-identical; a partially kept batch is returned with its first n records,
+// batchLength/lastOffsetDelta/maxTimestamp/numRecords/CRC rewritten accordingly and every
+// other header byte unchanged. Returns "" or a description of the first deviation.
+func c07PitrContract(cs c07Case, raws [][]byte, cutoff int64, kept []RecordBatch, err error) string {
+	if err != nil {
+		return "error on a well-formed segment: " + err.Error()
+	}
+	type want struct{ batch, n int }
+	var exp []want
+	stop := false
+	for bi, b := range cs.Batches {
+		n := 0
+		for _, r := range b.Recs {
+			if b.FirstTs+r.TsDelta > cutoff {
+				stop = true
+				break
+			}
+			n++
+		}
+		if n > 0 {
+			exp = append(exp, want{bi, n})
+		}
+		if stop {
+			break
+		}
+	}
+	var gotOffs, expOffs []int64
+	for _, k := range kept {
+		for i := int32(0); i < k.MessageCount; i++ {
+			gotOffs = append(gotOffs, k.BaseOffset+int64(i))
+		}
+	}
+	for _, w := range exp {
+		for i := 0; i < w.n; i++ {
+			expOffs = append(expOffs, cs.Batches[w.batch].Base+int64(i))
+		}
+	}
+	if fmt.Sprint(gotOffs) != fmt.Sprint(expOffs) {
+		return fmt.Sprintf("cutoff %d: recovered offsets %v, but the records at or before the first record > cutoff (scan order) are %v", cutoff, gotOffs, expOffs)
+	}
+	castag := crc32.MakeTable(crc32.Castagnoli)
+	for i, w := range exp {
+		b, raw, k := cs.Batches[w.batch], raws[w.batch], kept[i].Bytes
+		if w.n == len(b.Recs) {
+			if !bytes.Equal(k, raw) {
+				return fmt.Sprintf("cutoff %d: batch %d kept whole but its bytes changed", cutoff, w.batch)
+			}
+			continue
+		}
+		sz, maxTs := 0, b.FirstTs
+		for j, s := range c07RecSizes(b)[:w.n] {
+			sz += s
+			if ts := b.FirstTs + b.Recs[j].TsDelta; ts > maxTs {
+				maxTs = ts
+			}
+		}
+		okHdr := len(k) == 61+sz && bytes.Equal(k[61:], raw[61:61+sz]) && bytes.Equal(k[0:8], raw[0:8]) && bytes.Equal(k[12:17], raw[12:17]) &&
+			bytes.Equal(k[21:23], raw[21:23]) && bytes.Equal(k[27:35], raw[27:35]) && bytes.Equal(k[43:57], raw[43:57])
+		if !okHdr || int(binary.BigEndian.Uint32(k[8:12])) != len(k)-12 || int(binary.BigEndian.Uint32(k[23:27])) != w.n-1 ||
+			int64(binary.BigEndian.Uint64(k[35:43])) != maxTs || int(binary.BigEndian.Uint32(k[57:61])) != w.n ||
+			binary.BigEndian.Uint32(k[17:21]) != crc32.Checksum(k[21:], castag) {
+			return fmt.Sprintf("cutoff %d: batch %d truncated to %d records has an inconsistent header/body", cutoff, w.batch, w.n)
+		}
+	}
+	return ""
+}
+
 // c07Encode: kmsg encoding of one batch (independent of the repo's code).
 func c07Encode(b c07Batch) []byte {
 	var recs []byte
@@ -376,6 +543,11 @@ func c07Corpus() []c07Case {
 		{Interval: 1, Created: 1700000000000, Batches: []c07Batch{{Base: 7, FirstTs: 1700000000000, Recs: []c07Rec{{TsDelta: 1 << 30, Key: k, Val: []byte("a")}, {TsDelta: -(1 << 30) - 1, OffDelta: 1, Val: []byte("b")}, {TsDelta: 1<<30 - 1, OffDelta: 2, Val: []byte("c")}}}}},
 		// null key, empty value, header with null value
 		{Interval: 0, Created: 1700000000001, Batches: []c07Batch{{Base: 100, FirstTs: 1700000000000, Recs: []c07Rec{{Key: nil, Val: []byte{}, Hdrs: []c07Hdr{{K: "h", V: nil}, {K: "", V: []byte{}}}}}}}},
+		// cut-off boundary: later batches lie at or before the first batch's max timestamp
+		{Interval: 1, Created: 1700000000003, Batches: []c07Batch{
+			{Base: 0, FirstTs: 1700000000100, Recs: []c07Rec{{Val: []byte("a")}, {TsDelta: 50, OffDelta: 1, Val: []byte("b")}}},
+			{Base: 2, FirstTs: 1700000000120, Recs: []c07Rec{{Val: []byte("c")}, {TsDelta: 30, OffDelta: 1, Val: []byte("d")}}},
+			{Base: 4, FirstTs: 1700000000090, Recs: []c07Rec{{Val: []byte("e")}, {TsDelta: 70, OffDelta: 1, Val: []byte("f")}}}}},
 		// three batches, interval 1, negative delta
 		{Interval: 1, Created: 1700000000002, Batches: []c07Batch{
 			{Base: 10, FirstTs: 1700000000000, Recs: []c07Rec{{Val: []byte("x")}, {TsDelta: -5, OffDelta: 1, Val: []byte("y")}}},
@@ -470,15 +642,30 @@ func TestVerifC07Storage(t *testing.T) {
 				jsons = append(jsons, string(canon))
 			}
 		}
-		// a cutoff inside the data: model comparison of the truncation path
+		// cut-offs on the data: model comparison of the truncation path + the scanner contract
 		r := vNewRand(uint64(len(canon)) + uint64(cs.Created))
-		wi := want[r.Intn(len(want))]
-		cuts := []int64{wi.Ts, wi.Ts - 1}
-		if vTier() == "quick" {
-			cuts = cuts[:1+len(canon)%2][len(canon)%2:]
+		var cuts []int64
+		if class == "boundary" || class == "corpus" || class == "replay" {
+			cuts = c07Cutoffs(cs)
+			if vTier() == "quick" && len(cuts) > 10 {
+				cuts = cuts[:10]
+			}
+		} else {
+			wi := want[r.Intn(len(want))]
+			cuts = []int64{wi.Ts, wi.Ts - 1}
+			if vTier() == "quick" {
+				cuts = cuts[len(canon)%2 : 1+len(canon)%2]
+			}
 		}
+		consistent := c07Consistent(cs)
 		for _, cut := range cuts {
-			obs, _, _ := vdPitrObs(seg, cut)
+			obs, keptC, cerr := vdPitrObs(seg, cut)
+			if consistent {
+				if dev := c07PitrContract(cs, raws, cut, keptC, cerr); dev != "" {
+					fail("pitr-cutoff", "collectRecoverableBatches: "+dev)
+				}
+				rep.Hist("pitr-contract-checked")
+			}
 			coq = append(coq, fmt.Sprintf("CDecode KPitr %s %s %s", cqBytes(seg), cqZ(cut), obs))
 			jsons = append(jsons, string(canon))
 		}
@@ -514,9 +701,13 @@ func TestVerifC07Storage(t *testing.T) {
 			runOne(cs, "corpus")
 		}
 		r := vNewRand(vSeed())
-		n := vN(40, 700)
+		n := vN(30, 700)
 		for i := 0; i < n; i++ {
 			runOne(c07Gen(r.Fork()), "generated")
+		}
+		nb := vN(15, 400)
+		for i := 0; i < nb; i++ {
+			runOne(c07GenBoundary(r.Fork()), "boundary")
 		}
 	}
 	b, _ := json.Marshal(inputs)
@@ -543,6 +734,127 @@ type c34Case struct {
 	Class string `json:"class"`
 	Kind  string `json:"kind"`
 	Data  []byte `json:"data"`
+}
+
+// ---------- hostile INTERNAL framing of a broker-acceptable record set ----------
+// The broker checks a produced record set only as a whole (>= 61 bytes, non-negative
+// lastOffsetDelta, NewRecordBatchFromBytes); the batchLength fields inside are the client's.
+// These builders make one record set out of several frames of mixed validity and push it
+// through the real NewRecordBatchFromBytes + BuildSegment.
+func c34ValidFrame(r *vRand, base int64, ts int64) []byte {
+	n := r.Range(1, 3)
+	var recs []byte
+	for i := 0; i < n; i++ {
+		body := append([]byte{0}, vdVarint(int64(r.Intn(40)))...)
+		body = append(body, vdVarint(int64(i))...)
+		body = append(body, vdVarint(-1)...)
+		v := r.Bytes(r.Range(0, 5))
+		body = append(body, vdVarint(int64(len(v)))...)
+		body = append(body, v...)
+		body = append(body, 0)
+		recs = append(recs, vdVarint(int64(len(body)))...)
+		recs = append(recs, body...)
+	}
+	return c34RawBatch(base, uint32(n), ts, ts+40, recs)
+}
+
+func c34TinyFrame(r *vRand, declared int, payload int) []byte {
+	f := make([]byte, 12, 12+payload)
+	binary.BigEndian.PutUint64(f[0:8], uint64(r.Intn(1000)))
+	binary.BigEndian.PutUint32(f[8:12], uint32(declared))
+	return append(f, r.Bytes(payload)...)
+}
+
+func c34FramingSet(r *vRand, variant int) []byte {
+	ts := int64(1700000000000) + int64(r.Intn(1000))
+	first := c34ValidFrame(r, 10, ts)
+	set := append([]byte(nil), first...)
+	switch variant {
+	case 0: // first frame's batchLength points at a short/odd remainder
+		set = append(set, c34ValidFrame(r, 20, ts+100)...)
+		binary.BigEndian.PutUint32(set[8:12], uint32(r.Range(1, 60)))
+	case 1: // tiny trailing frame directly before the footer
+		k := r.Range(1, 14)
+		set = append(set, c34TinyFrame(r, k, k)...)
+	case 2: // short frame in the middle, valid frames around it
+		k := r.Range(1, 48)
+		set = append(set, c34TinyFrame(r, k, k)...)
+		set = append(set, c34ValidFrame(r, 30, ts+r64(r, -200, 200))...)
+	case 3: // batchLength 0 / negative / huge in a later frame
+		f := c34ValidFrame(r, 20, ts+50)
+		binary.BigEndian.PutUint32(f[8:12], []uint32{0, 0xffffffff, 0x80000000, 0x7fffffff, uint32(len(f) + 1000)}[r.Intn(5)])
+		set = append(set, f...)
+		set = append(set, c34ValidFrame(r, 30, ts+100)...)
+	case 4: // overlapping frames: declared length shorter / longer than the frame
+		f := c34ValidFrame(r, 20, ts+50)
+		d := int(binary.BigEndian.Uint32(f[8:12])) + r.Range(-30, 30)
+		if d < 1 {
+			d = 1
+		}
+		binary.BigEndian.PutUint32(f[8:12], uint32(d))
+		set = append(set, f...)
+		set = append(set, c34ValidFrame(r, 30, ts+100)...)
+	case 5: // declared length a little beyond the end of the body
+		k := r.Range(1, 30)
+		set = append(set, c34TinyFrame(r, k+r.Range(1, 20), k)...)
+	default: // several frames of mixed validity
+		for i, n := 0, r.Range(2, 5); i < n; i++ {
+			switch r.Intn(4) {
+			case 0:
+				k := r.Range(1, 60)
+				set = append(set, c34TinyFrame(r, k, k)...)
+			case 1:
+				set = append(set, c34TinyFrame(r, r.Range(0, 80), r.Range(0, 30))...)
+			default:
+				set = append(set, c34ValidFrame(r, int64(20+10*i), ts+r64(r, -300, 300))...)
+			}
+		}
+	}
+	return set
+}
+
+func r64(r *vRand, lo, hi int) int64 { return int64(r.Range(lo, hi)) }
+
+// c34FramingSegment: the record set goes through the broker's own functions.
+func c34FramingSegment(set []byte) []byte {
+	rb, err := NewRecordBatchFromBytes(set)
+	if err != nil {
+		return nil
+	}
+	art, err := BuildSegment(SegmentWriterConfig{IndexIntervalMessages: 1}, []RecordBatch{rb}, time.UnixMilli(1700000000000))
+	if err != nil {
+		return nil
+	}
+	return art.SegmentBytes
+}
+
+// c34FrameCutoffs walks the body the way the scanner does and returns cut-offs before /
+// inside / after every frame whose timestamps can be read.
+func c34FrameCutoffs(seg []byte) []int64 {
+	out := []int64{math.MaxInt64, math.MinInt64}
+	seen := map[int64]bool{}
+	if len(seg) < 48 {
+		return out
+	}
+	body := seg[32 : len(seg)-16]
+	for off, guard := 0, 0; off+12 <= len(body) && guard < 8; guard++ {
+		if off+43 <= len(body) {
+			f := int64(binary.BigEndian.Uint64(body[off+27 : off+35]))
+			m := int64(binary.BigEndian.Uint64(body[off+35 : off+43]))
+			for _, c := range []int64{f - 1, f, m - 1, m, m + 1, (f + m) / 2} {
+				if !seen[c] {
+					seen[c] = true
+					out = append(out, c)
+				}
+			}
+		}
+		bl := int(binary.BigEndian.Uint32(body[off+8 : off+12]))
+		if bl <= 0 || off+12+bl > len(body) {
+			break
+		}
+		off += 12 + bl
+	}
+	return out
 }
 
 func vdVarint(v int64) []byte {
@@ -638,6 +950,10 @@ func c34Corpus() []c34Case {
 	hdrMid := append([]byte{24, 0, 0, 0, 1, 1}, append(vdVarint(1<<26), 0, 0, 0, 0, 0)...)
 	return []c34Case{
 		{"corpus-valid-record", "segment", seg(1, []byte{20, 0, 4, 0, 1, 0, 2, 2, 107, 2, 118})},
+		{"corpus-framing-tiny-trailing-frame", "segment", c34FramingSegment(c34FramingSet(vNewRand(11), 1))},
+		{"corpus-framing-short-middle-frame", "segment", c34FramingSegment(c34FramingSet(vNewRand(12), 2))},
+		{"corpus-framing-first-length-short", "segment", c34FramingSegment(c34FramingSet(vNewRand(13), 0))},
+		{"corpus-framing-declared-beyond-end", "segment", c34FramingSegment(c34FramingSet(vNewRand(14), 5))},
 		{"corpus-hdr-count-minus1", "segment", seg(1, hdrMinus1)},
 		{"corpus-index-count-minus1", "index", c34Index(0xffffffff, 0)},
 		{"corpus-record-count-2^24", "segment", seg(1<<24, hdrMinus1)},
@@ -663,7 +979,10 @@ func c34Gen(r *vRand) c34Case {
 		}
 		return art.SegmentBytes
 	}
-	switch r.Intn(12) {
+	switch r.Intn(16) {
+	case 12, 13, 14, 15:
+		v := r.Intn(8)
+		return c34Case{fmt.Sprintf("broker-written-hostile-framing-%d", v), "segment", c34FramingSegment(c34FramingSet(r, v))}
 	case 0:
 		return c34Case{"random", "segment", r.Bytes(r.Intn(200))}
 	case 1:
@@ -774,10 +1093,38 @@ func TestVerifC34Storage(t *testing.T) {
 		if len(cs.Data) >= 32+43 {
 			cut = int64(binary.BigEndian.Uint64(cs.Data[32+27:32+35])) + int64(id%7)
 		}
-		for _, c := range []int64{math.MaxInt64, math.MinInt64, cut} {
+		cutoffs := []int64{math.MaxInt64, math.MinInt64, cut}
+		framing := strings.Contains(cs.Class, "framing")
+		if framing {
+			cutoffs = c34FrameCutoffs(cs.Data)
+			if vTier() == "quick" && len(cutoffs) > 12 {
+				cutoffs = cutoffs[:12]
+			}
+		}
+		for ci, c := range cutoffs {
 			var obs string
 			pan, alloc, dur := vdGuard(func() { obs, _, _ = vdPitrObs(cs.Data, c) })
+			if framing {
+				emitIdx = id % 3 // every cut-off of a framing input goes to the Coq comparison
+			}
 			check("pitr", "KPitr", obs, pan, alloc, dur, c)
+			// the restore planner on top of the scanner (oracle only: no panic, bounded allocation)
+			if framing || ci == 2 {
+				c := c
+				if c > 1<<50 || c < -(1<<50) {
+					c = cut
+				}
+				pan2, alloc2, _ := vdGuard(func() {
+					_, _ = buildRestorePlan(cs.Data, c34Index(1, 1), time.UnixMilli(c), time.UnixMilli(1700000000000))
+				})
+				if pan2 != "" {
+					rep.Fail("no-panic", "panic-restore-plan-"+vdPanicSite(pan2), fmt.Sprintf("buildRestorePlan panicked on a %d-byte segment (%s), cut-off %d: %s", len(cs.Data), cs.Class, c, pan2), cs)
+				}
+				if alloc2 > uint64(2*vdAllocC*len(cs.Data)+vdAllocSlack) {
+					rep.Fail("alloc-bounded", "alloc-unbounded-restore-plan", fmt.Sprintf("buildRestorePlan allocated %d bytes for a %d-byte segment (%s)", alloc2, len(cs.Data), cs.Class), cs)
+				}
+				rep.Hist("restore-plan-runs")
+			}
 		}
 		if len(cs.Data) >= 32+61+16 {
 			recs := cs.Data[32+61 : len(cs.Data)-16]
@@ -808,7 +1155,7 @@ func TestVerifC34Storage(t *testing.T) {
 			runOne(cs)
 		}
 		r := vNewRand(vSeed())
-		n := vN(110, 2500)
+		n := vN(90, 2500)
 		for i := 0; i < n; i++ {
 			runOne(c34Gen(r.Fork()))
 		}
